@@ -86,6 +86,7 @@ CellWhys(c, inf) ==
     IF c.size # Cardinality(inf.keptSpec) THEN "P:C10:Size()-is-not-the-number-of-words-kept" ELSE "ok",
     IF c.inputTouched = 1 THEN "P:C10:callers-slice-modified" ELSE "ok",
     IF c.mutated = 1 THEN "P:C15:call-changed-the-recipe-or-the-word-list" ELSE "ok",
+    IF c.twinDiff = 1 THEN "P:C15:results-differ-from-a-fresh-recipe-with-the-same-field-values-on-the-same-bytes" ELSE "ok",
     IF c.ent.k = "panic" THEN "P:C14:Entropy()-panicked-on-a-recipe-with-a-list" ELSE "ok",
     IF c.ent.k = "nan" THEN "P:C08:entropy-is-NaN" ELSE "ok",
     IF c.ent.k # "panic" /\ ~SameFloat(c.ent, c.ent2) THEN "P:C08:entropy-differs-between-calls" ELSE "ok",
